@@ -17,17 +17,18 @@ import (
 )
 
 // Touch is one request that reached the filer while a recording window was open.
-//   Via  "grpc" | "http"
-//   M    gRPC method name (LookupDirectoryEntry, ...) or HTTP method
-//   Raw  the path exactly as the request named it (directory + "/" + name, or URL path)
-//   Eff  the entry path the filer's handler resolves it to. For gRPC this is computed by
-//        calling the SAME exported helper the handler calls on the request fields
-//        (weed/server/filer_grpc_server.go): util.JoinPath for LookupDirectoryEntry /
-//        DeleteEntry / the find step of UpdateEntry (it cleans ".."), util.NewFullPath
-//        for CreateEntry / UpdateEntry / AppendToEntry (literal), the directory itself
-//        for ListEntries. For HTTP it is the URL path the filer mux received.
-//   St   HTTP status the filer answered (0 for gRPC). 301 = the filer's ServeMux
-//        redirected an unclean path before any handler ran: no entry was accessed.
+//
+//	Via  "grpc" | "http"
+//	M    gRPC method name (LookupDirectoryEntry, ...) or HTTP method
+//	Raw  the path exactly as the request named it (directory + "/" + name, or URL path)
+//	Eff  the entry path the filer's handler resolves it to. For gRPC this is computed by
+//	     calling the SAME exported helper the handler calls on the request fields
+//	     (weed/server/filer_grpc_server.go): util.JoinPath for LookupDirectoryEntry /
+//	     DeleteEntry / the find step of UpdateEntry (it cleans ".."), util.NewFullPath
+//	     for CreateEntry / UpdateEntry / AppendToEntry (literal), the directory itself
+//	     for ListEntries. For HTTP it is the URL path the filer mux received.
+//	St   HTTP status the filer answered (0 for gRPC). 301 = the filer's ServeMux
+//	     redirected an unclean path before any handler ran: no entry was accessed.
 type Touch struct {
 	Via string
 	M   string
@@ -39,9 +40,28 @@ type Touch struct {
 type Recorder struct {
 	mu       sync.Mutex
 	on       bool
+	tag      string // BeginTag: the value of the ReqTag header of the one request of this window
 	list     []Touch
 	inflight int // filer HTTP handlers that started inside the window and have not finished
 }
+
+// ReqTag is a request header the gateway copies onto the filer HTTP requests it makes for a client
+// request (proxyToFiler, putToFiler copy every header). A driver that puts a fresh value on every
+// request and opens the window with BeginTag keeps a late filer handler of an EARLIER request (the
+// gateway answers an aborted upload before the filer has even started its handler) out of this
+// request's window. Filer requests without the header are recorded as before.
+const ReqTag = "X-Verif-Req"
+
+func (r *Recorder) BeginTag(tag string) {
+	r.mu.Lock()
+	r.on = true
+	r.tag = tag
+	r.list = nil
+	r.mu.Unlock()
+}
+
+// mine: does a filer HTTP request carrying tag t belong to the open window (call with r.mu held)
+func (r *Recorder) mine(t string) bool { return r.tag == "" || t == "" || t == r.tag }
 
 // background / connection-level methods that are not caused by an S3 request
 var ignored = map[string]bool{
@@ -61,6 +81,7 @@ func (r *Recorder) add(t Touch) {
 func (r *Recorder) Begin() {
 	r.mu.Lock()
 	r.on = true
+	r.tag = ""
 	r.list = nil
 	r.mu.Unlock()
 }
@@ -188,8 +209,9 @@ func (r *Recorder) HTTPWrap(h http.Handler) http.Handler {
 	return http.HandlerFunc(func(w http.ResponseWriter, q *http.Request) {
 		sw := &statusWriter{ResponseWriter: w}
 		p := q.URL.Path
+		t := q.Header.Get(ReqTag)
 		r.mu.Lock()
-		counted := r.on
+		counted := r.on && r.mine(t)
 		if counted {
 			r.inflight++
 		}
@@ -201,7 +223,7 @@ func (r *Recorder) HTTPWrap(h http.Handler) http.Handler {
 		r.mu.Lock()
 		if counted {
 			r.inflight--
-			if r.on {
+			if r.on && r.mine(t) {
 				r.list = append(r.list, Touch{"http", q.Method, p, p, sw.st})
 			}
 		}
